@@ -504,9 +504,18 @@ func (p *Posix) DeleteBucket(_ context.Context, bucket string) error {
 	}
 	verifhook.At("delbucket.empty-checked", bucket)
 
-	// Remove the bucket
-	err = os.RemoveAll(bucket)
+	// Remove the bucket: first what the gateway itself keeps in it, then the
+	// bucket directory. Unlike a recursive removal this fails when an object
+	// has been uploaded since the check above, instead of deleting it.
+	err = os.RemoveAll(filepath.Join(bucket, metaTmpDir))
 	if err != nil {
+		return fmt.Errorf("remove bucket: %w", err)
+	}
+	err = os.Remove(bucket)
+	if errors.Is(err, syscall.ENOTEMPTY) || errors.Is(err, syscall.EEXIST) {
+		return s3err.GetAPIError(s3err.ErrBucketNotEmpty)
+	}
+	if err != nil && !errors.Is(err, fs.ErrNotExist) {
 		return fmt.Errorf("remove bucket: %w", err)
 	}
 	verifhook.At("delbucket.removed", bucket)
